@@ -189,6 +189,15 @@ func (r *Report) finish(verifDir string, seed int64) int {
 		a := per[rule]
 		fmt.Printf("   %-22s holds=%d known=%d failing=%d\n", rule, a.h, a.k, a.b)
 	}
+	if len(renameLog) > 0 {
+		seenRn := map[string]bool{}
+		for _, n := range renameLog {
+			if !seenRn[n] {
+				seenRn[n] = true
+				r.Notes = append(r.Notes, n)
+			}
+		}
+	}
 	for _, n := range r.Notes {
 		fmt.Println("   note:", n)
 	}
